@@ -321,7 +321,9 @@ func CoordMain(propID, tier string, seed uint64, runsOverride int) int {
 		cs.harness = append(cs.harness, fmt.Sprintf("only %d of %d planned runs were executed", cs.agg.Runs, total))
 	}
 	wall := time.Since(start).Seconds()
-	if err := writeEvidence(p, cs, tier, seed, wall, len(violLines)); err != nil {
+	if digestMode {
+		// determinism self-test runs are not property checks: they leave the evidence files alone
+	} else if err := writeEvidence(p, cs, tier, seed, wall, len(violLines)); err != nil {
 		cs.harness = append(cs.harness, "evidence: "+err.Error())
 	}
 	if len(cs.harness) > 0 {
